@@ -2,7 +2,8 @@
 (* S-specification for C15, Tseitin part: the reference encoding as a machine.                   *)
 (*   input space : every propositional formula over Atoms with <= FullConn connectives, and every *)
 (*                 such formula with <= MaxConn connectives whose atoms occur in first-occurrence *)
-(*                 order a, b, c (one representative per renaming of the atoms)                   *)
+(*                 order a, b, c (one representative per renaming of the atoms); and the family   *)
+(*                 Repeats of formulas with a repeated sub-formula (X op X in every small context) *)
 (*   state       : f, phase, enc (reference encoding: definitions x_i <-> .., clauses)            *)
 (*   action      : Encode                                                                         *)
 (*   properties  : RefTheoremValid   defs, f |- conjunction of the clauses   (the shape of the     *)
@@ -12,7 +13,8 @@
 (* The formulas are written as vectors (POSTCONDITION Emit) and replayed into prover/tseitin.py.  *)
 EXTENDS C15_Prop, SequencesExt, Json, IOUtils
 
-CONSTANTS Atoms, FullConn, MaxConn
+CONSTANTS Atoms, FullConn, MaxConn,
+          RepFull     \* repeated-sub-formula family: contexts on both sides and with both atoms (FALSE: one side, atom a)
 
 RECURSIVE F(_)
 \* all formulas with exactly n connectives
@@ -28,7 +30,20 @@ AtomOrder == SetToSortSeq(Atoms, LAMBDA x, y : \E i, j \in 1..3 : <<"a", "b", "c
 Canon(f) == LET s == AtomSeq(f) IN
             \A i \in 1..Len(s) : \A k \in 2..Len(AtomOrder) :
                s[i] = AtomOrder[k] => \E j \in 1..(i - 1) : s[j] = AtomOrder[k - 1]
-Formulas == UNION { F(n) : n \in 0..FullConn } \cup UNION { { f \in F(n) : Canon(f) } : n \in (FullConn + 1)..MaxConn }
+\* ---- formulas with a REPEATED sub-formula: X op X for every connective (X an atom, a negation, a compound), nested in
+\* every context of 0, 1 or 2 connectives (negation; conjunction, disjunction, implication either way, equivalence with an
+\* atom).  These are exactly the inputs whose Tseitin clauses contain repeated literals (x <-> y & y gives ~y | ~y | x)
+\* or complementary ones (x <-> (y --> y) gives ~x | ~y | y).
+vA == <<"atom", "a">>
+vB == <<"atom", "b">>
+RepXs == { vA, <<"not", vA>>, <<"and", vA, vB>> }
+Rep0 == { <<op, X, X>> : op \in BinOps, X \in RepXs }
+CtxAtoms == IF RepFull THEN { vA, vB } ELSE { vA }
+Ctx(S) == { <<"not", x>> : x \in S }
+          \cup { <<op, x, y>> : op \in BinOps, x \in S, y \in CtxAtoms }
+          \cup { <<op, y, x>> : op \in (IF RepFull THEN BinOps ELSE {"imp"}), x \in S, y \in CtxAtoms }
+Repeats == Rep0 \cup Ctx(Rep0) \cup Ctx(Ctx(Rep0))
+Formulas == UNION { F(n) : n \in 0..FullConn } \cup UNION { { f \in F(n) : Canon(f) } : n \in (FullConn + 1)..MaxConn } \cup Repeats
 
 VARIABLES f, phase, enc
 vars == <<f, phase, enc>>
@@ -51,6 +66,6 @@ RefDefinitional == phase = "encoded" =>
 
 Emit == LET u == SetToSeq(Formulas) IN
         /\ TLCGet("distinct") >= Len(u)
-        /\ ndJsonSerialize(IOEnv.VECTOR_FILE, [i \in 1..Len(u) |-> [formula |-> u[i]]])
+        /\ ndJsonSerialize(IOEnv.VECTOR_FILE, [i \in 1..Len(u) |-> [formula |-> u[i], rep |-> (u[i] \in Repeats)]])
         /\ PrintT(<<"vectors", Len(u)>>)
 =============================================================================
